@@ -25,7 +25,7 @@
    18 (table split across pages, every fragment read after the whole layout) the
    ColumnPositions of a fragment are not the model's for that fragment's own
    content box and column widths; 19 a cell of a fragment is not on its columns;
-   20 a laid-out cell has a negative used (content) width; 21 auto layout: a
+   20 (23 in the fixed layout) a laid-out cell has a negative used (content) width; 21 auto layout: a
    cell's used content width is smaller than the min-content width of its
    content (widest word of the cell, from the generator's specification of the
    document, never from the boxes); 22 the laid-out table (or the preferred
@@ -199,8 +199,10 @@ Definition auto_hyps (tmin tmax spacing : Q) (cols : list acol) : bool :=
 (* "no cell has a negative used size", "never smaller than the content's
    minimum" (auto layout: Layout/TableGeomProofs.v cell_content_fits shows it is
    what columns sized for the cell's outer min-content width give) *)
+(* (slack: the float32 sum of the columns minus the paddings and borders of a
+   cell that exactly fills them may come out at -2^-22) *)
 Definition cells_nonneg (cells : list ccell) : bool :=
-  forallb (fun c => let 'CCell w _ := c in Qle_bool 0 w) cells.
+  forallb (fun c => let 'CCell w _ := c in Qle_bool (0 - slack) w) cells.
 Definition cells_hold_content (cells : list ccell) : bool :=
   forallb (fun c => let 'CCell w mc := c in Qle_bool (mc - slack) w) cells.
 
@@ -246,7 +248,7 @@ Definition model_out (c : case) : model_result :=
 Definition check (c : case) : N :=
   match c with
   | CCells auto cells =>
-      if negb (cells_nonneg cells) then 20%N
+      if negb (cells_nonneg cells) then (if auto then 20%N else 23%N)
       else if auto && negb (cells_hold_content cells) then 21%N
       else 0%N
   | CNonFinite _ _ _ => 22%N
